@@ -35,6 +35,11 @@ def monitors_c02(case, seq, batches, filt, sent, mb, sets=()):
         if th == 0 and len(ids) != 1:
             out.append(("C02_zero_throttle: several events in one batch with a zero throttle", ids))
         prev_end = te or ts
+    # every urgent event that was sent is in some batch (it by-passes the filterer whatever that would say, and flushes at once)
+    delivered = {i for _, ids, _ in batches for i in ids}
+    for e in case["events"]:
+        if e.get("prio") == "urgent" and sent.get(e["id"], {}).get("ok", False) and e["id"] not in delivered:
+            out.append(("C02_urgent_flush: an urgent event was never handed to the action handler", e))
     return out
 
 
